@@ -386,6 +386,50 @@ func ruleENG2(c *Ctx) {
 			if nApp != 1 {
 				c.Fail(fnName(ep)+" / exactly one candidate append", p.Pos(ep.Pos()), fmt.Sprintf("%d append sites to a []*RuleEntry, expected exactly 1", nApp))
 			}
+			// (b') completeness: once Evaluate said true, nothing but an error return lies between it and the append
+			var appendCall ssa.Instruction
+			for _, b := range ep.Blocks {
+				for _, in := range b.Instrs {
+					if call, ok := in.(*ssa.Call); ok && appendedElems(call) != nil && isNamed(sliceElem(call.Type()), fullPkg("ast"), "RuleEntry") {
+						appendCall = call
+					}
+				}
+			}
+			loop := innermostLoopOf(naturalLoops(ep), ev.(ssa.Instruction).Block())
+			if appendCall != nil && loop != nil {
+				isCan := func(v ssa.Value) bool {
+					for _, cv := range can {
+						if v == cv {
+							return true
+						}
+					}
+					return false
+				}
+				t, path := reach(ep, ev.(ssa.Instruction), func(in ssa.Instruction) bool {
+					if in.Block() == loop.Header && instrIndex(in) == 0 {
+						return true
+					}
+					if r, ok := in.(*ssa.Return); ok {
+						return !returnsNonNilError(r)
+					}
+					return false
+				}, func(in ssa.Instruction) bool { return in == appendCall }, func(b *ssa.BasicBlock, si int) bool {
+					iff, isIf := b.Instrs[len(b.Instrs)-1].(*ssa.If)
+					if !isIf {
+						return true
+					}
+					if kind, sTrue, okc := condOn(iff.Cond, isCan); okc && kind == "bool" {
+						return si == sTrue
+					}
+					return true
+				})
+				construct := fmt.Sprintf("%s / every satisfied entry becomes a candidate", fnName(ep))
+				if t == nil {
+					c.OK(construct, p.InstrPos(ev), "with Evaluate's result true, every path to the next iteration or a success return passes the append")
+				} else {
+					c.Fail(construct, p.InstrPos(ev), fmt.Sprintf("an entry whose condition evaluated to true can be left out of the candidate list: the next iteration / a success return at %s is reachable without the append (an extra filter on the satisfied entry)", p.InstrPos(t)), pathString(p, path)...)
+				}
+			}
 		}
 	}
 	// (a') the evaluation and the firing run against the call's own data context and the knowledge base's own working
